@@ -8,7 +8,7 @@ HEADER = '''\
 # exit 1 + "REPRODUCED" = the property violation reproduces; exit 0 = it does not.
 import sys, warnings
 warnings.filterwarnings("ignore")
-sys.path.insert(0, "/repo")
+sys.path.insert(0, __import__("os").environ.get("VERIF_REPO", "/repo"))
 import numpy as np
 '''
 
